@@ -678,7 +678,17 @@ def model_layer(ctx, build, n_models=None):
         report(ctx, r, counters)
         if meta.get("corpus") and meta.get("expect") is None and (J.failures["C"] or J.failures["Py"]):
             pass        # already reported by report(): a control model has no unsafe equation
-    # the hand-written models must show their findings (or the library was repaired: then they simply pass)
+    # disk: keep the files of failing models only
+    for r in rs:
+        if r["status"] == "ok" and not r["judged"].failures["C"] and not r["judged"].failures["Py"] and not r["judged"].cross:
+            base = r["path"][:-len(".cellml")]
+            shutil.rmtree(base + ".cdir", ignore_errors=True)
+            shutil.rmtree(base + ".pydir", ignore_errors=True)
+            for ext in (".cellml", ".cellml.c", ".cellml.h", ".cellml.py"):
+                try:
+                    os.remove(base + ext)
+                except OSError:
+                    pass
     hist["findings_observed"] = counters["findings"]
     hist["violations"] = counters["violations"]
     hist["rejected_fraction"] = round(hist["rejected"] / max(1, len(models)), 4)
